@@ -110,7 +110,8 @@ func (s *Server) referrerGet(repoStr, arg string) http.HandlerFunc {
 		}
 		// check page cache for digest, two users requesting same referrer list
 		if cacheResp, err := s.referrerCache.Get(referrerKey{repo: repoStr, subject: arg, dig: d.Digest, artifactType: filterAT}); err == nil {
-			if page >= len(cacheResp) {
+			// only use the page counter if the digest matches, it counts the pages of another response otherwise
+			if page >= len(cacheResp) || (page > 0 && cacheDig != d.Digest.String()) {
 				page = 0
 			}
 			if page+1 < len(cacheResp) {
